@@ -23,6 +23,7 @@ RULE = ("stream 'history': random sequences (4..14 steps) of store API operation
         "neighbouring id, other contact) never costs the record under another key. distinct = distinct (history, op, kill point).")
 RULE += (" stream 'stmtfault': the j-th write statement of an operation fails (storage fault), then another operation, close: file vs model, the record stored before must still be there. stream 'localid': the account's own identity with edge bytes (0x05 / 0x00 / 0xff leading, trailing) read back before and after a reopen.")
 RULE += (" stream 'factory': the store opened through AxolotlManagerFactory (two profiles of one account, two accounts, the same profile twice): a write through a manager lands in that profile's own file.")
+RULE += (" stream 'newprocess': one record of every store kind stored through the API by one fresh interpreter and loaded through the API by two later ones (each with its own string-hash salt).")
 ASSUMPTIONS = ["SQLite's atomic commit: a transaction that was not committed when the process died is rolled back on reopen; a committed one is durable "
                "(power loss / fsync lies below SQLite are not exhibited)", "python-axolotl record (de)serialisation is the identity on the stored blobs"]
 EXHAUSTIVE = {"quick": False, "thorough": False}
@@ -74,6 +75,10 @@ def cases(chk):
             for then in (4, 0, 9):
                 if not chk.quick() or then == 4 or op in (0, 3):
                     yield "stmtfault", {"op": op, "k": k, "then": then}
+    # "survive a restart": the records are stored by one process and read by ANOTHER (fresh interpreters: their own string-hash salt, nothing
+    # in memory from the life before) — what is read is what was stored, for every store kind
+    for i in range(chk.scale(2, 6)):
+        yield "newprocess", {"round": i}
     # the way the library itself opens the store (AxolotlManagerFactory.get_manager(profile, account)): every profile has its own file, whatever
     # else the process has open — two profiles of one account, two accounts, the same profile twice
     for shape in ("same-account-two-profiles", "two-accounts", "same-profile-twice", "same-account-two-profiles-reversed"):
@@ -370,6 +375,51 @@ def run_localid(chk, case):
     return out
 
 
+def run_newprocess(chk, case):
+    import shutil
+    import subprocess
+    import sys
+    import tempfile
+    d = tempfile.mkdtemp(prefix="c13p-", dir=boot.scratch_dir())
+    fails = []
+    try:
+        path = os.path.join(d, "axolotl.db")
+        env = dict(os.environ)
+        env.pop("PYTHONHASHSEED", None)            # every life draws its own salt, as real processes do
+        here = os.path.join(os.path.dirname(os.path.abspath(__file__)), "..")
+        script = os.path.join(here, "lib", "storeproc.py")
+        env["PYTHONPATH"] = os.path.abspath(here) + os.pathsep + env.get("PYTHONPATH", "")
+
+        def life(*args):
+            p = subprocess.run([sys.executable, script] + list(args), env=env, stdout=subprocess.PIPE, stderr=subprocess.PIPE, timeout=120)
+            if p.returncode != 0:
+                return None, p.stderr.decode("utf-8", "replace").strip().splitlines()[-1:] or ["exit %d" % p.returncode]
+            return dict(l.split() for l in p.stdout.decode().splitlines()), None
+        wrote, err = life("write", path)
+        if wrote is None:
+            return [oracle("C13:store-raises-in-a-fresh-process", "a fresh process storing one record of every kind: %s" % err)]
+        wfile = os.path.join(d, "written.txt")
+        with open(wfile, "w") as f:
+            f.write("".join("%s %s\n" % kv for kv in sorted(wrote.items())))
+        for n in range(2):                           # two later lives: the first restart and the one after it
+            read, err = life("read", path, wfile)
+            chk.hit("newprocess:read")
+            if read is None:
+                fails.append(oracle("C13:load-raises-after-restart", "records of every kind stored by one process; process #%d after it cannot load them: %s" % (n + 2, err)))
+                break
+            bad = sorted(k for k in wrote if read.get(k) != wrote[k])
+            if bad:
+                k = bad[0]
+                fails.append(oracle("C13:record-not-found-after-restart:" + k.split(":")[0],
+                                    "records of every kind stored through the store's API by one process, loaded through the API by process #%d after it: %s comes back as %s "
+                                    "(stored: %d bytes); differing: %s" % (n + 2, k, "nothing" if read.get(k) in (None, "-") else "%d other bytes" % (len(read[k]) // 2),
+                                                                         len(wrote[k]) // 2, bad)))
+                break
+    finally:
+        shutil.rmtree(d, ignore_errors=True)
+    return fails
+
+
 def run_stmtfault(chk, case):
     import os
     import sqlite3
@@ -500,6 +550,8 @@ def run_case(chk, stream, case):
         return run_factory(chk, case)
     if stream == "stmtfault":
         return run_stmtfault(chk, case)
+    if stream == "newprocess":
+        return run_newprocess(chk, case)
     if stream == "localid":
         return run_localid(chk, case)
     if stream == "journal":
@@ -670,7 +722,7 @@ def _child(path, pool, op, j, mode="kill"):
 
 
 def shrink(stream, case):
-    if stream in ("journal", "otherkey", "localid", "stmtfault", "factory"):
+    if stream in ("journal", "otherkey", "localid", "stmtfault", "factory", "newprocess"):
         return
     if stream == "crash":
         pre = case["pre"]
